@@ -275,9 +275,13 @@ def _static_ok(static: str, exported: str, exact: bool, all_null: bool) -> bool:
         return exported.startswith("Datetime")
     if st.startswith("decimal"):
         return exported.startswith("Decimal") or (not exact and exported in _FLOATS)
+    if st.startswith("duration"):
+        return exported.startswith("Duration")
+    if st == "time":
+        return exported.startswith("Time")
     want = _PL_OF.get(st)
     if want is None:
-        return True                # types outside the generated domain (duration, time, list, enum)
+        return True                # types outside the generated domain (list, enum)
     if exact:
         return exported == want
     if want in _INTS:
